@@ -116,9 +116,8 @@ func (x *Exec) callValue(st *State, fv SVal, sig *types.Signature, args []SVal, 
 	}
 	// user-supplied function: uninterpreted, functional in its arguments
 	short := x.shortName(name)
-	if !x.PanicForks {
-		x.obl(st, "nopanic/nilfunc:"+short, not(eq(x.termOf(st, fv), "nil")), "call of possibly nil func "+short, pos)
-	}
+	// a nil user-supplied function is a caller error: the resulting panic is contained by the observer
+	// (layer K), so no obligation is raised here
 	var res []SVal
 	var ats, asorts []string
 	for _, a := range args {
@@ -170,6 +169,10 @@ func (x *Exec) invoke(st *State, recv SVal, recvT types.Type, method string, sig
 	}
 	ev := Event{Name: name + "." + method, Args: args, Pos: pos}
 	res := x.freshResults(st, name+"."+method, sig)
+	if (method == "SubscribeWithContext" || method == "Subscribe") && len(res) == 1 && res[0].K == KU {
+		// interface contract of Observable: the returned Subscription is never nil
+		st.assume(not(eq(res[0].T, "nil")))
+	}
 	ev.Res = res
 	x.event(st, ev)
 	k(st, Exit{Kind: ExitReturn, Results: res})
